@@ -262,11 +262,11 @@ func recvsIn(fn *ssa.Function) []*ssa.UnOp {
 
 // chanCellOf: the captured cell (free var) or parent alloc a channel value is loaded from.
 func chanCellOf(v ssa.Value) ssa.Value {
-	for _, o := range origins(v) {
-		if u, ok := o.(*ssa.UnOp); ok && u.Op == token.MUL {
-			return u.X
-		}
-		return o
+	if u, ok := v.(*ssa.UnOp); ok && u.Op == token.MUL {
+		return u.X
+	}
+	if phi, ok := v.(*ssa.Phi); ok && len(phi.Edges) > 0 {
+		return chanCellOf(phi.Edges[0])
 	}
 	return v
 }
